@@ -106,7 +106,10 @@ func (fs *LocalFS) CreateSymlink(n NodeSymlink) error {
 		return err
 	}
 
-	return nil
+	if n.MTime == time.Unix(0, 0) {
+		return nil
+	}
+	return fs.setSymlinkTimes(dst, n.MTime)
 }
 
 type walkEntry struct {
